@@ -118,7 +118,7 @@ def _values(rng, t, n):
 
 def cases(rng, tier):
     for gen in (int_cases, ext_cases, float_cases, smallest_cases, column_cases, interval32_cases, decimals_cases, reuse_cases,
-                strtable_cases, level_cases, params_cases, rewrite_cases, names_cases, encser_cases, cont_cases, spell_cases):
+                strtable_cases, level_cases, params_cases, rewrite_cases, names_cases, encser_cases, cont_cases, spell_cases, origin_cases, widepack_cases, pathwrite_cases, session_cases):
         for c in gen(rng, tier):
             rt = c.get("rt")
             if rt and rt.get("enc") in ("rle", "delta", "pack", "bytes", "compress_int", "compress_float"):
@@ -290,6 +290,72 @@ def spell_cases(rng, tier):
             data = [rng.choice([5, -3, 2.5, "X", ""])]
         yield {"kind": "spell/" + flavour, "rt": {"enc": "spell", "flavour": flavour, "data": data, "seed": rng.randint(0, 10 ** 9),
                                                    "via": rng.choice(["data", "column", "category", "setitem", "file"])}}
+
+
+
+def origin_cases(rng, tier):
+    """DeltaEncoding with a *given* origin (explicit, or an encoding used a second time on other data): op `delta_enc_o` against
+    `deltaEncodeWith` (C05_delta_explicit_origin) and the round-trip oracle."""
+    for _ in range(30 if tier == "quick" else 400):
+        t = rng.choice(["i8", "i16", "i32", "u8", "u16", "u32"])
+        xs = _values(rng, t, rng.choice([0, 1, 2, 3, 5, 8]))
+        o = rng.choice(_values(rng, t, 2) + [0, 1] + xs[:1])
+        lo, hi = RANGE[t]
+        o = min(max(o, lo), hi)
+        yield {"kind": "delta_origin", "ops": [f"delta_enc_o {t} {o} {_ints(xs)}"],
+               "rt": {"enc": "delta", "dtype": t, "data": xs, "origin": o, "reused": rng.random() < 0.3}}
+
+
+def widepack_cases(rng, tier):
+    """IntegerPacking (and the other integer encodings) on wide / unsigned arrays with values around 2^31 and 2^32: kept or rejected."""
+    edge = [2 ** 31 - 1, 2 ** 31, 2 ** 31 + 1, 3000000000, 2 ** 32 - 1, 2 ** 32, 5, 0, 70000]
+    for _ in range(20 if tier == "quick" else 200):
+        t = rng.choice(["u32", "i64", "u64"])
+        xs = [rng.choice(edge) for _ in range(rng.randint(1, 5))]
+        if t == "u32":
+            xs = [x for x in xs if x < 2 ** 32] or [2 ** 31]
+        case = {"kind": "widepack", "rt": {"enc": "widepack", "dtype": t, "data": xs, "bc": rng.choice([1, 2]),
+                                           "u": rng.choice(["a", "a", "u", "s"]), "chain": rng.choice(["pack", "pack", "rle+pack", "delta+pack"])}}
+        # the same call op by op against the model of the wide path (values whose wrapped magnitude keeps the word stream short)
+        near = [2 ** 32 - 3, 2 ** 32 + 5, 2 ** 32, 300, 0, 7, 2 ** 33 + 1, 2 ** 32 - 40000] if t != "u32" else [2 ** 32 - 3, 2 ** 32 - 40000, 300, 0, 7]
+        ws = [rng.choice(near) for _ in range(rng.randint(0, 4))]
+        case["ops"] = [f"pack_enc_w {case['rt']['bc']} {case['rt']['u']} {t} {_ints(ws)}"]
+        yield case
+
+
+def pathwrite_cases(rng, tier):
+    """Writing to a path: a refused write leaves the file that was written there before readable and unchanged."""
+    for _ in range(4 if tier == "quick" else 30):
+        yield {"kind": "pathwrite", "rt": {"enc": "pathwrite", "seed": rng.randint(0, 10 ** 9), "n": rng.randint(1, 6),
+                                           "spoil": rng.choice(["too-big", "ragged", "object", "bad-encoding"])}}
+
+
+def session_cases(rng, tier):
+    """Several compress() calls in ONE process (columns of different float widths and kinds, one after the other): every result is
+    judged on its own — state kept between calls must not leak from one column into the next."""
+    for _ in range(10 if tier == "quick" else 80):
+        cols = []
+        for _ in range(rng.randint(2, 5)):
+            ft = rng.choice(["f4", "f8"])
+            style = rng.choice(["nonfinite", "wide", "short", "plain", "plain"])
+            if style == "nonfinite":
+                xs = [rng.choice(["nan", "inf", "1.5", "-2.25"]) for _ in range(rng.randint(2, 6))]
+            elif style == "wide":
+                xs = [rng.choice(["1e30", "1e-30", "3.141592653589793", "1e300" if ft == "f8" else "1e38", "1e-300" if ft == "f8" else "1e-38"]) for _ in range(rng.randint(2, 6))]
+            elif style == "short":
+                xs = [repr(rng.uniform(-5, 5))]
+            else:
+                xs = [repr(round(rng.uniform(-99, 99), 3)) for _ in range(rng.randint(3, 30))]
+            cols.append({"ft": ft, "data": xs})
+        if rng.random() < 0.5:
+            # a lossless-fallback column of one width right before a lossless-fallback column of the other width
+            a, b = rng.choice([("f4", "f8"), ("f4", "f8"), ("f8", "f4")])
+            irr = ["3.141592653589793", "0.3333333333333333", "2.718281828459045", "1.4142135623730951", "nan", "-inf"]
+            pair = [{"ft": a, "data": [rng.choice(irr) for _ in range(rng.randint(2, 5))] + ["nan"]},
+                    {"ft": b, "data": [rng.choice(irr) for _ in range(rng.randint(2, 5))] + ["inf"]}]
+            k = rng.randint(0, len(cols))
+            cols[k:k] = pair
+        yield {"kind": "session", "rt": {"enc": "session", "cols": cols, "tol": rng.choice([1e-6, 1e-6, 1e-3, 1e-9])}}
 
 
 
@@ -563,12 +629,19 @@ def run_impl(case):
                 r = enc.encode(np.array(xs, dtype=NP[t]))
                 return f"ok {int(enc.origin)} {_ints(r)}"
             out.append(_fmt(f))
+        elif w[0] == "delta_enc_o":
+            t, o, xs = w[1], int(w[2]), _parse(w[3])
+            out.append(_fmt(lambda: "ok " + _ints(E.DeltaEncoding(origin=o).encode(np.array(xs, dtype=NP[t])))))
         elif w[0] == "delta_dec":
             t, o, xs = w[1], int(w[2]), _parse(w[3])
             out.append(_fmt(lambda: "ok " + _ints(E.DeltaEncoding(src_type=np.dtype(NP[t]), origin=o).decode(np.array(xs, dtype=np.int32)))))
         elif w[0] == "pack_enc":
             bc, u, xs = int(w[1]), {"u": True, "s": False, "a": None}[w[2]], _parse(w[3])
             out.append(_fmt(lambda: "ok " + _ints(E.IntegerPackingEncoding(byte_count=bc, is_unsigned=u).encode(np.array(xs, dtype=np.int32)))))
+        elif w[0] == "pack_enc_w":
+            bc, u, t, xs = int(w[1]), {"u": True, "s": False, "a": None}[w[2]], w[3], _parse(w[4])
+            wide = {"u32": np.uint32, "i64": np.int64, "u64": np.uint64}[t]
+            out.append(_fmt(lambda: "ok " + _ints(E.IntegerPackingEncoding(byte_count=bc, is_unsigned=u).encode(np.array(xs, dtype=wide)))))
         elif w[0] == "pack_dec":
             pt, n, xs = w[1], int(w[2]), _parse(w[3])
             bc = 1 if pt in ("i8", "u8") else 2
@@ -861,7 +934,13 @@ def oracle(case):
                 enc = E.RunLengthEncoding()
             elif kind == "delta":
                 arr = np.array(data, dtype=NP[rt["dtype"]])
-                enc = E.DeltaEncoding()
+                if "origin" not in rt:
+                    enc = E.DeltaEncoding()
+                elif rt.get("reused"):
+                    enc = E.DeltaEncoding()
+                    enc.encode(np.array([rt["origin"], rt["origin"]], dtype=NP[rt["dtype"]]))     # the first use fixes origin and type
+                else:
+                    enc = E.DeltaEncoding(origin=rt["origin"])
             elif kind == "pack":
                 arr = np.array(data, dtype=np.int32)
                 enc = E.IntegerPackingEncoding(byte_count=rt["bc"], is_unsigned={"u": True, "s": False, "a": None}[rt["u"]])
@@ -1071,6 +1150,17 @@ def oracle(case):
         v += _cont_oracle(case)
     elif kind == "spell":
         v += _spell_check(rt)
+    elif kind == "widepack":
+        v += _widepack_check(rt)
+    elif kind == "pathwrite":
+        v += _pathwrite_check(rt)
+    elif kind == "session":
+        from common import sandbox
+        res = sandbox.run_forked(_session_run, rt, timeout=20)
+        if res[0] == "timeout":
+            v.append(("C05/compress/float-hang", f"a sequence of compress() calls does not terminate: {rt}"))
+        elif res[0] == "ok":
+            v += [tuple(x) for x in res[1]]
     elif kind == "strtable":
         v += _strtable_check(rt)
     elif kind == "level":
@@ -1488,6 +1578,141 @@ def _spell_check(rt):
 
 
 
+def _widepack_check(rt):
+    import numpy as np
+    from biotite.structure.io.pdbx import bcif
+    from biotite.structure.io.pdbx import encoding as E
+    data = list(rt["data"])
+    arr = np.array(data, dtype={"u32": np.uint32, "i64": np.int64, "u64": np.uint64}[rt["dtype"]])
+    pack = E.IntegerPackingEncoding(byte_count=rt["bc"], is_unsigned={"u": True, "s": False, "a": None}[rt["u"]])
+    encs = {"pack": [pack], "rle+pack": [E.RunLengthEncoding(), pack], "delta+pack": [E.DeltaEncoding(), pack]}[rt["chain"]] + [E.ByteArrayEncoding()]
+    import warnings
+    warnings.simplefilter("ignore", RuntimeWarning)
+    try:
+        back = bcif.BinaryCIFData.deserialize(bcif.BinaryCIFData(arr, encs).serialize()).array
+    except Exception:
+        return []                 # rejected
+    got = [int(x) for x in back]
+    if got != data:
+        if "delta" in rt["chain"] and rt["dtype"] in ("i64", "u64"):
+            shifted = [x - data[0] for x in data]
+            bigdiff = any(abs(b - a) > 2 ** 31 - 1 for a, b in zip([0] + shifted, shifted))
+            if rt["dtype"] == "i64" and any(not -2 ** 31 <= x < 2 ** 31 for x in data):
+                # DeltaEncoding stores int64 data as INT32 without a range check: the Delta stage alone already alters these
+                return [("C05/DeltaEncoding/int64-values-exceed-int32", f"int64 {data} through {rt['chain']}: decodes to {got[:8]}")]
+            if rt["dtype"] == "i64" and bigdiff:
+                return [("C05/DeltaEncoding/int64-differences-exceed-int32", f"int64 {data} through {rt['chain']}: decodes to {got[:8]}")]
+            if rt["dtype"] == "u64" and (bigdiff or any(x < 0 for x in shifted) or any(x > 2 ** 32 - 1 for x in data)):
+                return [("C05/DeltaEncoding/uint64-array-promoted-to-float64", f"uint64 {data} through {rt['chain']}: decodes to {got[:8]}")]
+        # two call-site classes of the unchanged code are known (astype(int32) without a range check, C05_packing_wide_defect);
+        # anything else — e.g. a value in [2^31, 2^32) accepted with the sign left to be detected — is new
+        if any(x >= 2 ** 32 or x < -2 ** 31 for x in data):
+            key = "C05/IntegerPackingEncoding/value-beyond-32-bits-wrapped"
+        elif rt["u"] == "s":
+            key = "C05/IntegerPackingEncoding/explicit-signed-wraps-values-above-int32"
+        else:
+            key = "C05/IntegerPacking/wide-value-altered"
+        return [(key, f"{rt['dtype']} {data} through {rt['chain']} (byte_count={rt['bc']}, is_unsigned={rt['u']}) is accepted and decodes to {got[:8]}")]
+    return []
+
+
+def _pathwrite_check(rt):
+    import random
+    import shutil
+    import tempfile
+
+    import numpy as np
+    from biotite.structure.io.pdbx import bcif
+    from common import paths
+    r = random.Random(rt["seed"])
+    n = rt["n"]
+    os.makedirs(paths.BUILD, exist_ok=True)
+    d = tempfile.mkdtemp(prefix="c05-pathwrite-", dir=paths.BUILD)
+    try:
+        path = os.path.join(d, "f.bcif")
+        ids = np.array([r.randint(0, 99) for _ in range(n)], dtype=np.int64)
+        cat = bcif.BinaryCIFCategory({"id": ids, "name": np.array([r.choice(["A", "BB", ""]) for _ in range(n)], dtype="U")})
+        f = bcif.BinaryCIFFile({"blk": bcif.BinaryCIFBlock({"cat": cat})})
+        f.write(path)
+        first = open(path, "rb").read()
+        # spoil the content so that serialisation must refuse it
+        if rt["spoil"] == "too-big":
+            cat["id"] = np.array([2 ** 40] * n, dtype=np.int64)
+        elif rt["spoil"] == "ragged":
+            cat["extra"] = np.arange(n + 1, dtype=np.int32)
+        elif rt["spoil"] == "bad-encoding":
+            from biotite.structure.io.pdbx import encoding as E
+            cat["id"] = bcif.BinaryCIFColumn(bcif.BinaryCIFData(ids, [E.RunLengthEncoding()]))     # does not end in bytes
+        else:
+            f["blk"]["cat2"] = bcif.BinaryCIFCategory({"x": bcif.BinaryCIFColumn(bcif.BinaryCIFData(np.array([1.5, 2.5]), [object()]))})
+        try:
+            f.write(path)
+        except Exception:
+            pass
+        else:
+            return []             # this content was accepted after all: nothing to say here (the file stream judges accepted writes)
+        now = open(path, "rb").read() if os.path.exists(path) else None
+        if now != first:
+            try:
+                g = bcif.BinaryCIFFile.read(path)
+                same = g["blk"]["cat"]["id"].as_array().tolist() == ids.tolist()
+            except Exception:
+                same = False
+            if not same:
+                return [("C05/write/refused-write-destroys-file", f"a file of {len(first)} bytes was written to a path; a second write ({rt['spoil']}) was refused, "
+                         f"and the path now holds {None if now is None else len(now)} bytes that no longer read back")]
+        return []
+    finally:
+        shutil.rmtree(d, ignore_errors=True)
+
+
+def _session_run(rt):
+    """Runs in a forked child: a history of compress() calls in one process."""
+    import math
+
+    import numpy as np
+    from biotite.structure.io.pdbx import bcif
+    from biotite.structure.io.pdbx import compress as _compress_fn
+    tol = rt["tol"]
+    out = []
+    done = []
+    for i, col in enumerate(rt["cols"]):
+        dt = np.float32 if col["ft"] == "f4" else np.float64
+        with np.errstate(over="ignore"):
+            arr = np.array([float(x) for x in col["data"]], dtype=dt)
+        try:
+            c = _compress_fn(bcif.BinaryCIFData(arr.copy()), float_tolerance=tol)
+            done.append(c)
+            # serialise everything compressed so far again: an encoding object shared between results shows here
+            backs = [bcif.BinaryCIFData.deserialize(x.serialize()).array for x in done]
+        except Exception as e:  # noqa: BLE001
+            out.append(["C05/compress/session-fails", f"column {i} ({col}) after {i} earlier compress() calls: {type(e).__name__}: {e}"])
+            break
+        eps = 2.0 ** -23 if col["ft"] == "f4" else 2.0 ** -52
+        bad = None
+        for j, (cj, back) in enumerate(zip(rt["cols"], backs)):
+            dtj = np.float32 if cj["ft"] == "f4" else np.float64
+            with np.errstate(over="ignore"):
+                want = np.array([float(x) for x in cj["data"]], dtype=dtj)
+            epsj = 2.0 ** -23 if cj["ft"] == "f4" else 2.0 ** -52
+            for a, b in zip(want.tolist(), back.tolist()):
+                same = (a == b) or (math.isnan(a) and math.isnan(b))
+                if not same and not (math.isfinite(a) and math.isfinite(b) and abs(b - a) <= (tol + 4 * epsj) * abs(a)):
+                    bad = (j, a, b)
+                    break
+                if not same and back.dtype != want.dtype and back.dtype.itemsize < want.dtype.itemsize and abs(b - a) > tol * abs(a):
+                    bad = (j, a, b)
+                    break
+            if bad:
+                break
+        if bad:
+            out.append(["C05/compress/session-state-leak", f"after compress() of columns {[c['ft'] for c in rt['cols'][:i + 1]]} in one process, column {bad[0]} "
+                        f"({rt['cols'][bad[0]]['ft']}) value {bad[1]!r} reads back as {bad[2]!r} (tolerance {tol}); cols={rt['cols'][:i + 1]}"])
+            break
+    return out
+
+
+
 def _file_roundtrip(rt):
     """BinaryCIFFile with int/float/string columns and masks: write -> read (plain and compressed) equal."""
     import io
@@ -1541,7 +1766,7 @@ def _file_roundtrip(rt):
 
 
 def nontrivial(case, impl_out):
-    if case["kind"].split("/")[0] in ("file", "column", "interval32", "decimals", "reuse", "u64", "strtable", "level", "params", "rewrite", "names", "encser", "cont", "spell"):
+    if case["kind"].split("/")[0] in ("file", "column", "interval32", "decimals", "reuse", "u64", "strtable", "level", "params", "rewrite", "names", "encser", "cont", "spell", "delta_origin", "widepack", "pathwrite", "session"):
         return True
     data = (case.get("rt") or {}).get("data")
     if data is not None and len(set(data)) >= 2:
